@@ -19,6 +19,11 @@
 (*             constructor; flags; the instance properties (15.10.7)         *)
 (*   "strm"    String.prototype.match / replace / search / split with a      *)
 (*             RegExp argument (lastIndex before = 0 or 1)                   *)
+(*   "repl"    replacement templates ($n $nn $0 $00 $$ $& ...) x patterns     *)
+(*             with 0, 1, 2 captures some of which do not participate x      *)
+(*             subjects with the match at the start / in the middle / none,  *)
+(*             and the function replacer (undefined for such captures);      *)
+(*             exhaustive in both tiers                                      *)
 (*   "bytes"   exec of a global expression from every lastIndex on subjects  *)
 (*             with 2- and 3-byte characters (byte vs code unit offsets);    *)
 (*             targeted: $nn replacement references with 12 captures         *)
@@ -109,7 +114,7 @@ Js(c) ==
             ELSE <<h \o "(function(){ return new RegExp(", Lit(StrV(c.src)), ",", Lit(StrV(c.flags)), "); })">>)
       [] c.fam = "props" -> <<"PROPS(">> \o Ctor(c.form, c.src, c.flags) \o <<")">>
       [] c.fam = "strm" ->
-           <<"var r = ">> \o Ctor(c.form, c.src, c.flags) \o <<", L = [], s = ", Lit(StrV(c.s)), "; r.lastIndex = ", Lit(c.li), "; var x = ">>
+           <<"G(function(){ var r = ">> \o Ctor(c.form, c.src, c.flags) \o <<", L = [], s = ", Lit(StrV(c.s)), "; r.lastIndex = ", Lit(c.li), "; var x = ">>
            \o (CASE c.m = "ctor" -> <<"'constructed'">>
                  [] c.m = "exec" -> <<"r.exec(s)">>
                  [] c.m = "test" -> <<"r.test(s)">>
@@ -118,7 +123,7 @@ Js(c) ==
                  [] c.m = "split" -> IF c.lim.t = "undef" /\ c.omit THEN <<"s.split(r)">> ELSE <<"s.split(r, ", Lit(c.lim), ")">>
                  [] c.m = "replace" -> <<"[s.replace(r, ", Lit(StrV(c.rep)), "), L]">>
                  [] c.m = "replacefn" -> <<"[s.replace(r, function(){ L.push(Array.prototype.slice.call(arguments)); return '[' + arguments[0] + ']'; }), L]">>)
-           \o <<"; [x, r.lastIndex]">>
+           \o <<"; return [x, r.lastIndex]; })">>
 
 Ok(v) == [thr |-> "", v |-> v, log |-> <<>>]
 Pair(a, b) == [t |-> "arr", a |-> <<a, b>>]
@@ -211,6 +216,12 @@ Next ==
                /\ \E si \in Pick(NStrm, 1..Len(StrmSubj)), o \in StrmOps(P.nc), li \in {IntV(0), IntV(1)} :
                      cs' = o @@ [fam |-> "strm", form |-> IF PatSeq(fam)[j] = <<>> \/ si % 2 = 0 THEN "ctor" ELSE "lit",
                                  src |-> PatSeq(fam)[j], flags |-> fl, s |-> StrmSubj[si], li |-> li]
+       ELSE IF fam = "repl"
+       THEN \E pi \in {i \in 1..Len(X_ReplPats) : i % K = b - 1}, fl \in {<<>>, <<103>>}, si \in 1..Len(X_ReplSubj) :
+               \/ \E ti \in 1..Len(X_ReplT) :
+                     cs' = [fam |-> "strm", m |-> "replace", form |-> IF (pi + ti) % 2 = 0 THEN "lit" ELSE "ctor", src |-> X_ReplPats[pi], flags |-> fl,
+                            s |-> X_ReplSubj[si], li |-> IntV(0), rep |-> X_ReplT[ti]]
+               \/ cs' = [fam |-> "strm", m |-> "replacefn", form |-> "lit", src |-> X_ReplPats[pi], flags |-> fl, s |-> X_ReplSubj[si], li |-> IntV(0)]
        ELSE IF fam = "bytes"
        THEN \/ /\ b <= Len(BytePats)
                /\ \E si \in 1..Len(ByteSubj), li \in 0..8 :
